@@ -110,7 +110,18 @@ func main() {
 	denomGuard, amountGuard := bankMsgSendGuards(handlerOf["precompileFunToken.bankMsgSend"])
 	localMeter := false
 	if fd := plain[".OnRunStart"]; fd != nil && fd.Body != nil {
-		localMeter = strings.Contains(Nospace(fd.Body), "cacheCtx.WithGasMeter(sdk.NewGasMeter(gasLimit))")
+		// the limit must be the parameter the Run methods fill with contract.Gas (pf_start_first), untouched
+		isParam := false
+		for _, f := range fd.Type.Params.List {
+			for _, n := range f.Names {
+				if n.Name == "gasLimit" {
+					isParam = true
+				}
+			}
+		}
+		b := Nospace(fd.Body)
+		localMeter = isParam && strings.Contains(b, "cacheCtx.WithGasMeter(sdk.NewGasMeter(gasLimit))") &&
+			!strings.Contains(b, "gasLimit=") && !strings.Contains(b, "gasLimit:=") && !strings.Contains(b, "gasLimit+=")
 	}
 	oogOnly := false
 	if fd := plain[".HandleOutOfGasPanic"]; fd != nil && fd.Body != nil {
